@@ -174,10 +174,9 @@ def consts_of(e):
             stack.append(t.body())
             continue
         if z3.is_app(t):
-            if t.num_args() == 0 and t.decl().kind() == z3.Z3_OP_UNINTERPRETED:
+            if t.decl().kind() == z3.Z3_OP_UNINTERPRETED:
                 out.add(t.decl().name())
-            else:
-                stack.extend(t.children())
+            stack.extend(t.children())
     _const_cache[i] = out
     return out
 
@@ -323,6 +322,8 @@ class Arith(object):
     def binop(self, op, a, b):
         if isinstance(a, OptV) or isinstance(b, OptV):
             raise EngineError("arithmetic on an optional value")
+        if op == '**' and isinstance(a, float) and a == 2.0 and is_z3(b) and z3.is_int(b):
+            return pow2_real(b)
         k, x, y = coerce_pair(a, b)
         if k == 'py':
             return self._py(op, x, y)
@@ -552,6 +553,18 @@ def and_const(x, c):
         else:
             i += 1
     return z3.IntVal(0) if res is None else res
+
+
+POW2R = z3.Function("pow2r", z3.IntSort(), z3.RealSort())
+
+
+def pow2_real(e):
+    """2.0 ** e for a symbolic integer exponent: an uninterpreted real function constrained, at
+    every use, by positivity and pow2r(e) * pow2r(-e) == 1 (all the proofs here need; T9 covers
+    the claim that the float operation is this exact real)."""
+    t = POW2R(e)
+    define("pow2r", z3.And(t > 0, t * POW2R(-e) == 1, POW2R(-e) > 0, POW2R(z3.IntVal(0)) == 1))
+    return t
 
 
 _pow2_fn = z3.Function("pow2", z3.IntSort(), z3.IntSort())
